@@ -44,6 +44,12 @@ def request_traces(prog):
                         if cs.fn == "core::future::future::Future::poll" and cs.res and cs.res.startswith("acmed::storage::get_keypair::"):
                             inner = ok(marker("STOREDKEY")) if stored_ok else _err("unreadable key file")
                             return Val("adt", [inner], ("core::task::poll::Poll", "Ready"))
+                        if cs.fn == "core::future::future::Future::poll" and cs.res and cs.res.startswith("acmed::acme_proto::http::pool_order::") and prog.adt("acmed::acme_proto::structs::order::Order") is not None \
+                                and "certificate" in prog.adt_fields("acmed::acme_proto::structs::order::Order"):
+                            # the finalised order names the certificate to download (a `match order.certificate {..}` must be decidable)
+                            from ..absint import some as _some
+                            od = struct_val(prog, "acmed::acme_proto::structs::order::Order", {"certificate": _some(vstr("https://ca.test/cert/1"))})
+                            return Val("adt", [ok(od)], ("core::task::poll::Poll", "Ready"))
                         if cs.is_("std::path::Path::is_file", "std::path::Path::exists", "std::path::Path::try_exists"):
                             return vbool(True)                  # an older key / certificate file is on disk (readable or not)
                         if n.endswith("openssl_keys::gen_keypair"):
